@@ -182,16 +182,45 @@ def _s1a(program, res):
                                     mentions.add(f"{obj}.{x.attr}")
                                 elif isinstance(x, ast.Name) and x.id != obj and x.id not in ("list", "str", "set", "sorted", "tuple", "repr"):
                                     mentions.add(x.id)
-                            if (mentions - {f"{obj}.ops_key"}) and (depsmod.has_root(roots, f"{obj}.terms") or depsmod.has_root(roots, obj)):
+                            if (mentions - {f"{obj}.ops_key"}) and (depsmod.has_root(roots, f"{obj}.terms") or depsmod.has_root(roots, obj)) \
+                                    and _carries_content(ks.stmt.value, obj, m, set()):
                                 ok = True
                     if ok:
                         res.ok("C04-S1", f"{m.qualname}: redefinition `{unparse(st)[:60]}` is followed by a matching {obj}.ops_key update")
                     else:
                         res.fail_at("C04-S1", m, f"stale-ops_key:{obj}.{field}",
                                     f"`{unparse(st)[:70]}` puts new content into the existing step `{obj}` but its ops_key (the CTE "
-                                    f"cache key) is not recomputed afterwards: with use_cte_elim two different merged steps over "
+                                    f"cache key) is not recomputed from that content afterwards (column names and declared dependencies do not say which expressions): with use_cte_elim two different merged steps over "
                                     f"the same sub-pipeline would share one CTE", st)
     res.expect_count("C04-S1", "stores into existing NearSQL objects", n_stores, 4)
+
+
+def _carries_content(expr, obj, m, seen) -> bool:
+    """does the new key say *what* the step now computes?  The names of its columns (`<obj>.terms.keys()`) and book-keeping fields (declared
+    dependencies) do not: two steps that assign the same columns from the same columns with different expressions share them.  Content is a content
+    field of the step read whole or by value, or something derived from a parameter of the function (the node being merged in, its printed form)"""
+    parents = {}
+    for n in ast.walk(expr):
+        for ch in ast.iter_child_nodes(n):
+            parents[ch] = n
+    comp_vars = {t.id for c in ast.walk(expr) if isinstance(c, (ast.ListComp, ast.SetComp, ast.DictComp, ast.GeneratorExp)) for g_ in c.generators
+                 for t in ast.walk(g_.target) if isinstance(t, ast.Name)}
+    params = set(m.params()) - {"self", "temp_id_source", "sql_format_options"}
+    for n in ast.walk(expr):
+        if isinstance(n, ast.Attribute) and isinstance(n.value, ast.Name) and n.value.id == obj and n.attr in CONTENT_FIELDS:
+            p_ = parents.get(n)
+            names_only = isinstance(p_, ast.Attribute) and p_.attr == "keys"
+            if not names_only and not (isinstance(p_, ast.Call) and dotted_name(p_.func) in ("len",)):
+                return True
+        elif isinstance(n, ast.Name) and n.id != obj and n.id not in comp_vars and n.id not in ("list", "str", "set", "sorted", "tuple", "repr", "len", "dict"):
+            if n.id in params:
+                return True
+            if n.id in seen:
+                continue
+            defs_ = [a.value for a in ast.walk(m.node) if isinstance(a, ast.Assign) and len(a.targets) == 1 and isinstance(a.targets[0], ast.Name) and a.targets[0].id == n.id]
+            if defs_ and any(_carries_content(dv, obj, m, seen | {n.id}) for dv in defs_):
+                return True
+    return False
 
 
 def _same_block(g, a, b):
@@ -220,6 +249,19 @@ def _s1b(program, res):
                 accesses.append((n, sub))
     if len(accesses) < 2:
         raise AnalysisError("to_with_form_stub: CTE cache lookup/store not found")
+    # the container's columns enter the key in their order: a cached step is read positionally (`SELECT * FROM <cte>` as a UNION ALL operand)
+    parents = {}
+    for n_ in ast.walk(stub.node):
+        for ch in ast.iter_child_nodes(n_):
+            parents[ch] = n_
+    for n_ in ast.walk(stub.node):
+        if isinstance(n_, ast.Attribute) and unparse(n_) == "self.columns":
+            p_ = parents.get(n_)
+            if isinstance(p_, ast.Call) and dotted_name(p_.func) in ("sorted", "set", "frozenset") and any(
+                    isinstance(a_, ast.Assign) and any(x is p_ for x in ast.walk(a_.value)) and "key" in unparse(a_.targets[0]) for a_ in ast.walk(stub.node)):
+                res.fail_at("C04-S1", stub, "cache-key-column-order-lost",
+                            f"the CTE cache key is built from `{unparse(p_)}`: the same step requested as (hi, lo) and as (lo, hi) shares one CTE, and a UNION ALL operand "
+                            f"reads it as `SELECT * FROM <cte>` by position — with use_cte_elim the two columns are swapped in the second operand", p_)
     for (n, sub) in accesses:
         keyexpr = sub.slice
         roots = d.roots_at(n, keyexpr)
